@@ -193,7 +193,7 @@ VARS = {
     "backend_thread_id": r"uint32_t const backend_thread_id = SignalHandlerContext::instance\(\)\.backend_thread_id\.load\(\)",
     "current_thread_id": r"uint32_t const current_thread_id = get_thread_id\(\)",
     "should_reraise_signal": r"bool const should_reraise_signal = SignalHandlerContext::instance\(\)\.should_reraise_signal\.load\(\)",
-    "logger_base": r"LoggerBase\s*\* logger_base = SignalHandlerContext::instance\(\)\.get_logger\(\)",
+    "logger_base": r"LoggerBase\s*\* logger_base = SignalHandlerContext::(?:instance\(\)\.)?get_logger\(\)",
     "logger": r"auto logger = reinterpret_cast<LoggerImpl<TFrontendOptions>\s*\*>\(\s*logger_base\s*\)",
 }
 
@@ -289,6 +289,12 @@ def extract_on_signal(sh, failures):
         failures.append("detail::on_signal not found")
         return ".done", []
     body = body_after(sh, m.end() - 1)
+    # a local reference to the singleton (`SignalHandlerContext& ctx = SignalHandlerContext::instance();`) is the
+    # same object: spell its uses out again so that the statements below are recognised whichever way they are written
+    al = re.search(r"(?:SignalHandlerContext|auto)\s*&\s*(\w+)\s*=\s*SignalHandlerContext::instance\(\)\s*;", body)
+    if al:
+        body = body[:al.start()] + body[al.end():]
+        body = re.sub(r"\b%s\s*\.\s*" % re.escape(al.group(1)), "SignalHandlerContext::instance().", body)
     nodes = parse_block(body)
     decls = []
     prog = prog_of(nodes, failures, decls)
@@ -379,12 +385,18 @@ def extract(repo, failures):
     spawn = r"^detail::BackendManager::instance\(\)\.start_backend_thread\("
     atex = r"^std::atexit\("
     d["plainStartSpawnsThenRegistersAtexit"] = order_ok(cp, [spawn, atex]) and sum(1 for c in cp if re.search(atex, c)) == 1
-    d["shStartOrder"] = order_ok(cs, [
-        r"^sigfillset\(&set\)$", r"^sigprocmask\(SIG_SETMASK, &set, &oldset\)$",
+    # the two local masks may have any name: the one filled and installed, and the one that receives the previous mask
+    mset = next((re.match(r"^sigfillset\(&(\w+)\)$", c_) for c_ in cs if re.match(r"^sigfillset\(&(\w+)\)$", c_)), None)
+    vset = mset.group(1) if mset else "set"
+    mold = next((re.match(r"^sigprocmask\(SIG_SETMASK, &%s, &(\w+)\)$" % vset, c_) for c_ in cs
+                 if re.match(r"^sigprocmask\(SIG_SETMASK, &%s, &(\w+)\)$" % vset, c_)), None)
+    vold = mold.group(1) if mold else "oldset"
+    d["shStartOrder"] = vset != vold and order_ok(cs, [
+        r"^sigfillset\(&%s\)$" % vset, r"^sigprocmask\(SIG_SETMASK, &%s, &%s\)$" % (vset, vold),
         r"^detail::init_signal_handler<TFrontendOptions>\(signal_handler_options\.catchable_signals\)$",
         spawn,
         r"^detail::SignalHandlerContext::instance\(\)\.backend_thread_id\.store\( ?detail::BackendManager::instance\(\)\.get_backend_thread_id\(\)\)$",
-        r"^sigprocmask\(SIG_SETMASK, &oldset, nullptr\)$", atex]) and sum(1 for c in cs if re.search(atex, c)) == 1
+        r"^sigprocmask\(SIG_SETMASK, &%s, nullptr\)$" % vold, atex]) and sum(1 for c in cs if re.search(atex, c)) == 1
     clear = r"detail::SignalHandlerContext::instance\(\)\.backend_thread_id\.store\(\s*0u?\s*\)"
     stopbt = r"detail::BackendManager::instance\(\)\.stop_backend_thread\(\)"
     sc = flat_calls(parse_block(stop)) if stop else []
